@@ -30,6 +30,10 @@ CHECKS = {
          "deterministic simulation: the sharded writer as a reorder buffer -- same chunk set under K seeded arrival orders (all permutations for small sets in thorough) x both buffering strategies on fresh SimFS instances; reference-map read-back through a fresh accessor and byte-identity of the shard trees",
          "Seeded search over arrival orders and subsets against a reference map; trees of all orders/strategies compared byte for byte; never-stored positions must not yield data. Exhaustive over permutations only for sets <= 6 chunks (thorough). Sampling otherwise.",
          "Trusts SimFS (incl. simulated temp files of the on-disk strategy); reads only after close(); each chunk stored once."),
+ "C18": ("fault_enumeration",
+         "deterministic simulation with fault injection: per sampled scenario, every raw I/O call of the operation is failed with each plausible errno and interrupted before / after / torn inside (single faults enumerated exhaustively, 2-3 fault sequences and disk-full budgets seeded in thorough); a fresh reader process judges the surviving state",
+         "Exhaustive over single faults and single crash points of each sampled scenario (accessor kind x layout x encoding x operation); scenarios themselves are sampled. The oracle is the statement's own trichotomy (error class / effect in place / earlier data unchanged; after interruption complete, absent or detectably invalid).",
+         "Trusts SimFS's process-interruption durability model (completed raw writes durable, user-space buffers lost; real io.Buffered*/GzipFile above the seam) and the fresh-reader oracle; power-loss reordering out of scope."),
 }
 
 def main():
